@@ -12,9 +12,11 @@ mod c07;
 mod c08;
 mod c09;
 mod c10;
+mod c11;
 mod c12;
 mod c13;
 mod c14;
+mod c15;
 mod c16;
 mod c18;
 mod drive;
@@ -94,9 +96,11 @@ fn main() {
         "c08" => c08::run(&mut rep, &tier, seed, shard, replay.as_deref()),
         "c09" => c09::run(&mut rep, &tier, seed, shard, replay.as_deref()),
         "c10" => c10::run(&mut rep, &tier, seed, shard, replay.as_deref()),
+        "c11" => c11::run(&mut rep, &tier, seed, shard, replay.as_deref()),
         "c12" => c12::run(&mut rep, &tier, seed, shard, replay.as_deref()),
         "c13" => c13::run(&mut rep, &tier, seed, shard, replay.as_deref()),
         "c14" => c14::run(&mut rep, &tier, seed, shard, replay.as_deref()),
+        "c15" => c15::run(&mut rep, &tier, seed, shard, replay.as_deref()),
         "c16" => c16::run(&mut rep, &tier, seed, shard),
         "c18" => c18::run(&mut rep, &tier, seed, shard, replay.as_deref()),
         other => {
